@@ -272,6 +272,9 @@ impl Check for C05 {
         out
     }
 
+    fn interference(&self) -> bool {
+        true
+    }
     fn required_probes(&self, _tier: Tier) -> Vec<&'static str> {
         vec![
             "probe:v1_accepted",
